@@ -28,10 +28,11 @@ def _snap_to_knots(obj, param, tol=10e-8):
     for idx, (prm, kv) in enumerate(zip(param, knotvectors)):
         if prm is None:
             continue
+        # Several stored knots may lie within the tolerance (e.g. 0.3 and 0.30000000000000004). They count as one knot of
+        # higher multiplicity; the last one of them is where the exact span search ends up
         for knot in kv:
-            if knot != prm and abs(knot - prm) <= tol:
+            if abs(knot - prm) <= tol:
                 snapped[idx] = knot
-                break
     return snapped
 
 
